@@ -4,6 +4,7 @@ package main
 
 import (
 	"fmt"
+	"strings"
 	"go/types"
 
 	"golang.org/x/tools/go/ssa"
@@ -249,8 +250,11 @@ func (m *Machine) store(l Loc, v Value) {
 	if m.merge != nil && locOwner(l) < m.merge.baseOwner {
 		panic(mergeAbort{"store to outer memory"})
 	}
-	if m.trackStores != nil {
-		m.trackStores(l)
+	if m.frameMark > 0 && locOwner(l) < m.frameMark && m.fr != nil && !strings.HasPrefix(m.fr.fn.Name(), "Verif") && !strings.HasPrefix(m.fr.fn.Name(), "vrt") {
+		m.frameViol = append(m.frameViol, m.position())
+	}
+	if m.workerStores != nil && locOwner(l) < m.workerBase {
+		m.workerStores[l] = true
 	}
 	m.storeRaw(l, v)
 }
